@@ -249,6 +249,33 @@ InScope(S, line, path) ==
        \/ line.rh \in DOMAIN S.ext.sp /\ S.ext.sp[line.rh] = path
   ELSE path \in AllPaths(S)
 
+(* C17.noForeign on helper lines, from the store's write log: the helper      *)
+(* (another session than the node's owner, always) set / deleted a presence    *)
+(* node that another live session owns and that is not the own node of the     *)
+(* host (and, for unregister_xxx, of the instance) it acts for: the DATA of    *)
+(* the node at that instant does not name the host.  If the helper's own last  *)
+(* get of that path showed data naming the host, the node was replaced in the  *)
+(* get / delete window (ext.kill.window, an observation); otherwise the guard  *)
+(* of the code let a foreign node through: the property's violation.          *)
+OwnNode(S, pre, line, path) ==
+  /\ line.rh \in HostSet(S)
+  /\ path \in DOMAIN pre.nodes
+  /\ WrittenBy(S, line.rh, path, pre.nodes[path].d)
+  /\ (line.rk = "unreg" => line.ra \in DOMAIN S.paths /\ path \in Range(S.paths[line.ra]))
+
+ForeignHit(S, pre, line, w) ==
+  /\ w.op \in {"set", "delete"}
+  /\ w.path \in AllPaths(S)
+  /\ Foreign(w.o, line.s)
+  /\ ~OwnNode(S, pre, line, w.path)
+
+(* what the helper's get of a presence node showed (logged return value) *)
+SeenAfter(S, pre, line) ==
+  IF line.ev = "acall" /\ line.op = "get" /\ line.path \in AllPaths(S)
+  THEN IF line.res = "ok" /\ line.rh \in HostSet(S) /\ WrittenBy(S, line.rh, line.path, line.gd)
+       THEN pre.adm.seen \cup {line.path} ELSE pre.adm.seen \ {line.path}
+  ELSE pre.adm.seen
+
 HelperVerdict(S, pre, line, post, explained) ==
   LET lost == pre.adm.ph = "lost"
       step == F("ext.kill.step", explained \/ (lost /\ line.ev # "abegin")) IN
@@ -257,13 +284,14 @@ HelperVerdict(S, pre, line, post, explained) ==
             \cup F("ext.kill.scope",
                    /\ line.op \in {"get", "get_children", "delete"}
                    /\ \A w \in Writes(line) : w.op = "delete" /\ InScope(S, line, w.path))
-            \cup F("ext.kill.window",
-                   \A w \in Applied(line) : w.op = "delete" /\ line.rh \in HostSet(S) =>
-                      NamesHost(S, pre, line.rh, w.path))
+            \cup F("ext.kill.window", \A w \in Applied(line) : ~(ForeignHit(S, pre, line, w) /\ w.path \in pre.adm.seen))
+            \cup F("C17.noForeign", \A w \in Applied(line) : ~(ForeignHit(S, pre, line, w) /\ w.path \notin pre.adm.seen))
             \cup F("ext.kill.waits", RetriesWait(pre, line, post))
             \cup F("ext.kill.ephemeral", StateEph(post)),
           ex |-> E("ext", TRUE) \cup E("ext.delete", \E w \in Applied(line) : w.op = "delete")
-                 \cup E("ext.fire", line.fired # <<>>)]
+                 \cup E("ext.fire", line.fired # <<>>)
+                 \cup E("C17.helper", \E w \in Applied(line) : w.op \in {"set", "delete"}
+                                                               /\ w.path \in AllPaths(S))]
     [] line.ev = "aend" ->
          [fail |-> step
             \cup F("ext.kill.atomic",
@@ -329,7 +357,8 @@ TNext ==
          ok2 == e2.ok /\ Proj(S2, e2.st) = post
          v == Verdict(S1, st, line, post, ok1 \/ ok2)
          nxt == IF ok1 THEN e1.st ELSE IF ok2 THEN e2.st ELSE Resync(S1, st, line, post) IN
-     /\ st' = IF line.ev \in AEvents THEN nxt ELSE Dirty(nxt)
+     /\ st' = IF line.ev = "acall" THEN [nxt EXCEPT !.adm.seen = SeenAfter(S1, st, line)]
+              ELSE IF line.ev \in AEvents THEN nxt ELSE Dirty(nxt)
      /\ PrintT(ToJson([tid |-> Traces[t].tid, i |-> i, fail |-> v.fail, ex |-> v.ex]))
 
 TSpec == TInit /\ [][TNext]_<<t, i, st>>
